@@ -168,6 +168,7 @@ def main():
             vlib.require(len(r.traces) > 100, "%s produced too few behaviours (%d)" % (label, len(r.traces)))
             run.add_tlc(r, label)
             behs += r.traces
+        behs.sort(key=schedule_key)   # TLC prints in worker order
         # the quiescent observation must be a function of the schedule (confluence of internal steps)
         seen = {}
         for b in behs:
